@@ -8,8 +8,7 @@ MANIFEST = dict(
     text=("Proved: the tokenizer model returns a value or an error for every byte string (valid UTF-8 or not) with fuel |bs|+1; the Parse/ParseWithPositions, ParseContext and recovery loops terminate within |tokens|+1 iterations on every token list for "
           "every statement parser that consumes on success; for EVERY token sequence (empty, without EOF, EOF in the middle) the parser cursor reads end-of-input after at most |tokens|-pos+1 advances, so every loop keyed on the current token terminates; "
           "the cursor of the pinned tree (last token stays current for ever) is refuted by a spinning witness, which is the hang found and repaired. The cursor model is compared with the real advance() on generated type sequences each run; the lexer and loop models are tied by the C04/C07/C12 correspondences. "
-          "Every public entry point the property names (tokenizing, all parse variants incl. every dialect and strict mode, validators, formatters, recovery, extraction, scanning, linting, and the low-level Parser methods on token sequences no tokenizer produces) is run on generated, corrupted, prefix-truncated, byte-soup and invalid-UTF-8 inputs in worker processes under a memory limit; a panic, a fatal runtime error or a stall is attributed to the call that was running."
-          " Very large in-limit inputs (7 shapes) and concurrent callers on thousands of distinct malformed inputs run in child processes so that fatal runtime errors (stack exhaustion, concurrent map access) are observed."),
+          "Every public entry point the property names (tokenizing, all parse variants incl. every dialect and strict mode, validators, formatters, recovery, extraction, scanning, linting, and the low-level Parser methods on token sequences no tokenizer produces) is run on generated, corrupted, prefix-truncated, byte-soup and invalid-UTF-8 inputs in worker processes under a memory limit; a panic, a fatal runtime error or a stall is attributed to the call that was running." + ' Very large in-limit inputs (7 shapes) and concurrent callers on thousands of distinct malformed inputs run in child processes so that fatal runtime errors (stack exhaustion, concurrent map access) are observed.'),
     note=common.BASE_NOTE + "Partial: the ~8 kloc of grammar functions, serialisers, scanner, extractors and linter rules are not modelled at statement granularity; for them panic-freedom and termination are exploration-level (evidence reports the split). Deep-nesting stack exhaustion is property C02's theorem.",
     design="6/C01")
 
